@@ -161,7 +161,20 @@ def run_hints(fv, hints, st):
         run_hint(fv, h, st)
 
 
+def name_unsafe_locals(fv, st):
+    """container / object locals whose current value is a conditional term (after an if-merge) get a name, so that the
+    invariants and postconditions evaluated next can use them in quantifier triggers"""
+    if fv.binders:
+        return
+    for n, sv in list(st.env.items()):
+        if n.startswith('__') or n.startswith('glob:') or not hasattr(sv, 'term'):
+            continue
+        if z3.is_expr(sv.term) and sv.term.sort() == P.V and fv.pattern_unsafe(sv.term):
+            st.env[n] = fv.pattern_safe(st, sv)
+
+
 def check_invs(fv, spec, st, phase, node):
+    name_unsafe_locals(fv, st)
     for name, e in spec.invariants:
         g = fv.truthy(fv.ev(e, st, True))
         fv.oblige(st, 'loop[%s]/inv[%s]/%s' % (spec.key, name, phase), g, node)
